@@ -115,7 +115,7 @@ pub fn build_options(o: &RunOpts, ex: &Extra) -> Options {
         .build()
 }
 
-pub fn run_ex(f: &Instr, x0: f64, xend: f64, y0: &[f64], o: &RunOpts, ex: &Extra) -> RunResult {
+pub fn solve_ex(f: &Instr, x0: f64, xend: f64, y0: &[f64], o: &RunOpts, ex: &Extra) -> RunResult {
     let opts = build_options(o, ex);
     let r = catch_unwind(AssertUnwindSafe(|| solve_ivp(f, x0, xend, y0, opts)));
     match r {
@@ -131,8 +131,8 @@ pub fn run_ex(f: &Instr, x0: f64, xend: f64, y0: &[f64], o: &RunOpts, ex: &Extra
     }
 }
 
-pub fn run(f: &Instr, x0: f64, xend: f64, y0: &[f64], o: &RunOpts) -> RunResult {
-    run_ex(f, x0, xend, y0, o, &Extra::default())
+pub fn solve(f: &Instr, x0: f64, xend: f64, y0: &[f64], o: &RunOpts) -> RunResult {
+    solve_ex(f, x0, xend, y0, o, &Extra::default())
 }
 
 /// guard for arbitrary closures calling into the crate
